@@ -83,6 +83,17 @@ impl Loader for LocalLoader {
         for (ns, path) in &self.caches {
             if iri.starts_with(ns.as_str()) {
                 let subpath = Path::new(&iri[ns.len()..]);
+                // refuse any IRI that would lead outside of the local directory
+                // (parent or root components, e.g. "ns/../x" or "ns//abs/path")
+                if subpath
+                    .components()
+                    .any(|c| !matches!(c, std::path::Component::Normal(_)))
+                {
+                    return Err(LoaderError::UnsupportedIri(
+                        iri_buf(iri),
+                        "path must stay inside the local directory".into(),
+                    ));
+                }
                 let resource_path: PathBuf = path.join(subpath);
                 #[cfg(feature = "sophia_verif")]
                 verif::log_path(&resource_path);
